@@ -39,8 +39,23 @@ def binary_summary(p, hist):
     return {'status': status, 'hooks': hooks, 'codes': codes}
 
 
+def pinned(chk):
+    import os
+    from common import ROOT
+    for k in chk.known:
+        w = k.get('witness', {})
+        if w.get('kind') != 'verdicts':
+            continue
+        src = open(os.path.join(ROOT, w['program'])).read()
+        ps = runner.compile_programs([('a', src, w['args_a']), ('b', src, w['args_b'])], want=('machine', 'codegen'))
+        got = [p.res.get('outcome') for p in ps]
+        if got == w['observed']:
+            chk.known_hits.append((k['id'], 'pinned witness %s: %s at %s but %s at %s' % (w['program'], got[0], w['args_a'], got[1], w['args_b'])))
+
+
 def run(tier, seed):
     chk = Check('C05', tier, seed, 'model_checking')
+    pinned(chk)
     rng = random.Random(seed * 7919 + 5)
     quick = tier != 'thorough'
     n = 36 if quick else 160
@@ -94,10 +109,15 @@ def run(tier, seed):
         for q in ps[1:]:
             if base.ok != q.ok:
                 verdict_diff += 1
+                fid = None
+                bm = (base.res.get('msg') or '')
+                if not base.ok and q.ok and bm.startswith(('Illegal use of integer expression in context ASSIGN_ON_END', 'Infinite loop due to self-referential fallthrough')) \
+                        and not any(f in ' '.join(base.args) for f in ('-O1', '-O2', '-O3', 'remove-inaccesible-states')):
+                    fid = 'verdict-depends-on-dead-code'
                 chk.violation('compiler verdict depends on optimisation: %s is %s at %s but %s at %s'
                               % (base.name.split('|')[0], base.res['outcome'], base.args, q.res['outcome'], q.args),
                               {'program': base.name, 'source': src, 'args_a': base.args, 'args_b': q.args,
-                               'a': base.res.get('msg'), 'b': q.res.get('msg')})
+                               'a': base.res.get('msg'), 'b': q.res.get('msg')}, fid)
             elif base.ok:
                 pairs.append((base, q))
     reports, st, cases = equiv.explore(pairs, slack=True, maxlen=9 if quick else 12, budget=60000 if quick else 300000, timeout=1600 if quick else 9000)
